@@ -25,9 +25,9 @@ while i < len(txt) - 1:
                                  test_suite=rec["tests"] if rec["tests"] != "skipped" else old.get("confirmed", {}).get("test_suite", "skipped"),
                                  how="git apply patch.diff in a scratch worktree; /venv/bin/python demo.py <worktree>; pytest; "
                                      "VERIF_REPO=<worktree> checks/check.py <property> --tier quick")
-        meta["checks"] = {p: dict(detected=bool(c["rc"]), line=c["violation"]) for p, c in rec["checks"].items()}
+        meta["checks"] = {p: dict(detected=bool(c["violation"]), line=c["violation"]) for p, c in rec["checks"].items()}
         json.dump(meta, open(os.path.join(dst, "meta.json"), "w"), indent=1)
-        print("kept", dst, {p: c["rc"] for p, c in rec["checks"].items()})
+        print("kept", dst, {p: (1 if c["violation"] else 0) for p, c in rec["checks"].items()}, {p: "NFI" for p, c in rec["checks"].items() if "no-failing" in c["violation"]})
         i += 2
     else:
         i += 1
